@@ -113,7 +113,36 @@ def prepare(tier):
     return {'unit': 'libzwerg/pred_result.hh (via pred_result.cc)', 'functions': lw.report['functions']}
 
 
+def replay_engine():
+    """Metamorphic queries on the real library: an assertion / sub-expression context must hand on the
+    incoming stack <1|2> unchanged (or nothing), whatever the sub-expression does with its copy."""
+    subs = ['swap', 'drop', 'drop drop', 'swap drop', '7', 'swap 7', 'drop 7 8', 'dup', 'swap 1 == drop', '"x"']
+    qs = []
+    for e in subs:
+        qs += ['1 2 ?(%s)' % e, '1 2 !(%s)' % e]
+    qs += ['1 2 let X := swap 7; X', '1 2 let X := drop 7 8; X', '1 2 (swap 1 == drop)', '1 2 [swap]']
+    res = vlib.zw_queries(qs, OUT)
+    bad = []
+    for q, (cnt, txt) in zip(qs, res):
+        if cnt is None:
+            bad.append('%s: exception' % q)
+            continue
+        for st in [t for t in txt.split(' ') if t.startswith('<')]:
+            body = st.strip('<>')
+            if q.startswith('1 2 ?(') or q.startswith('1 2 !(') or q == '1 2 (swap 1 == drop)':
+                ok = body == '1|2'
+            elif q.startswith('1 2 let'):
+                ok = body.startswith('1|2|')
+            else:
+                ok = body.startswith('1|2|[')
+            if not ok:
+                bad.append('`%s` yields <%s>' % (q, body))
+    return {'reproduced': bool(bad), 'violations_on_real_library': bad[:6], 'queries': len(qs)}
+
+
 def replay(r):
+    if r.job.name in ('bounded_subx_next', 'assert_next', 'pred_not_result', 'pred_and_result', 'pred_or_result'):
+        return replay_engine()
     op = r.job.name
     if op not in ('not', 'and', 'or') or not r.cex:
         return {'reproduced': False, 'note': 'no operator-level counterexample'}
